@@ -35,6 +35,50 @@ example : ((Model.inlineParse (ofRuleCfg cfg_core) (.obj []) "a *b* c".toList).t
 example : ((Model.inlineParse (ofRuleCfg cfg_only_strikethrough) (.obj []) "a ~~b~~".toList).toOption.map List.length) ≠
     ((Model.inlineParse (ofRuleCfg cfg_core) (.obj []) "a ~~b~~".toList).toOption.map List.length) := by decide +kernel
 
+theorem adds_mark : AddsInlineRule (ofRuleCfg cfg_core) (ofRuleCfg cfg_only_mark) "mark"
+    (ruleRx (ofRuleCfg cfg_only_mark) "mark")
+    (preOf (ofRuleCfg cfg_only_mark) "mark") (postOf (ofRuleCfg cfg_only_mark) "mark") :=
+  ⟨rfl, by decide +kernel, by decide +kernel, by decide +kernel, by decide +kernel, by decide +kernel⟩
+
+/-- **`mark` only affects sources containing `=`** -/
+theorem mark_irrelevant (env : Json) (src : Str) (hsrc : CF 61 src) :
+    Model.inlineParse (ofRuleCfg cfg_only_mark) env src = Model.inlineParse (ofRuleCfg cfg_core) env src :=
+  inlineParse_irrelevant_rule _ _ _ _ _ _ adds_mark (by decide +kernel) (by decide +kernel) (by decide +kernel)
+    61 (by decide +kernel) env src hsrc
+
+theorem adds_insert : AddsInlineRule (ofRuleCfg cfg_core) (ofRuleCfg cfg_only_insert) "insert"
+    (ruleRx (ofRuleCfg cfg_only_insert) "insert")
+    (preOf (ofRuleCfg cfg_only_insert) "insert") (postOf (ofRuleCfg cfg_only_insert) "insert") :=
+  ⟨rfl, by decide +kernel, by decide +kernel, by decide +kernel, by decide +kernel, by decide +kernel⟩
+
+/-- **`insert` only affects sources containing `^`** -/
+theorem insert_irrelevant (env : Json) (src : Str) (hsrc : CF 94 src) :
+    Model.inlineParse (ofRuleCfg cfg_only_insert) env src = Model.inlineParse (ofRuleCfg cfg_core) env src :=
+  inlineParse_irrelevant_rule _ _ _ _ _ _ adds_insert (by decide +kernel) (by decide +kernel) (by decide +kernel)
+    94 (by decide +kernel) env src hsrc
+
+theorem adds_superscript : AddsInlineRule (ofRuleCfg cfg_core) (ofRuleCfg cfg_only_superscript) "superscript"
+    (ruleRx (ofRuleCfg cfg_only_superscript) "superscript")
+    (preOf (ofRuleCfg cfg_only_superscript) "superscript") (postOf (ofRuleCfg cfg_only_superscript) "superscript") :=
+  ⟨rfl, by decide +kernel, by decide +kernel, by decide +kernel, by decide +kernel, by decide +kernel⟩
+
+/-- **`superscript` only affects sources containing `^`** -/
+theorem superscript_irrelevant (env : Json) (src : Str) (hsrc : CF 94 src) :
+    Model.inlineParse (ofRuleCfg cfg_only_superscript) env src = Model.inlineParse (ofRuleCfg cfg_core) env src :=
+  inlineParse_irrelevant_rule _ _ _ _ _ _ adds_superscript (by decide +kernel) (by decide +kernel) (by decide +kernel)
+    94 (by decide +kernel) env src hsrc
+
+theorem adds_subscript : AddsInlineRule (ofRuleCfg cfg_core) (ofRuleCfg cfg_only_subscript) "subscript"
+    (ruleRx (ofRuleCfg cfg_only_subscript) "subscript")
+    (preOf (ofRuleCfg cfg_only_subscript) "subscript") (postOf (ofRuleCfg cfg_only_subscript) "subscript") :=
+  ⟨rfl, by decide +kernel, by decide +kernel, by decide +kernel, by decide +kernel, by decide +kernel⟩
+
+/-- **`subscript` only affects sources containing `~`** -/
+theorem subscript_irrelevant (env : Json) (src : Str) (hsrc : CF 126 src) :
+    Model.inlineParse (ofRuleCfg cfg_only_subscript) env src = Model.inlineParse (ofRuleCfg cfg_core) env src :=
+  inlineParse_irrelevant_rule _ _ _ _ _ _ adds_subscript (by decide +kernel) (by decide +kernel) (by decide +kernel)
+    126 (by decide +kernel) env src hsrc
+
 end Inl
 end Model
 end Mistune
